@@ -116,7 +116,7 @@ def gen_datatype(rng, depth=0):
         lo = rng.choice([0, 0, 1])
         hi = lo + rng.choice([0, 2, 3])
         dt = D.ArrayOf(inner, lo, max(hi, 1) if lo == 0 else hi)
-        gen = lambda r: [ig(r) for _ in range(r.randint(dt.minlen, dt.maxlen))]
+        gen = lambda r: tuple(ig(r) for _ in range(r.randint(dt.minlen, dt.maxlen)))
     elif k == 'tuple':
         parts = [gen_datatype(rng, depth + 1) for _ in range(rng.randint(1, 3))]
         dt = D.TupleOf(*[p[0] for p in parts])
@@ -833,8 +833,12 @@ def e2e_case(rng, nvalues, with_proxy, res, driver):
         for _ in range(nvalues):
             m, p = rng.choice(targets)
             dt, gen = info[m][p]
-            v = dt(gen(rng))                      # a member of the value set, as a caller holds it
-            back = rng.choice([None, None, dt(gen(rng))])
+            # a member of the value set as a caller holds it: mostly the plain Python value (an int, a name or number for an
+            # enum, tuples, a dict), sometimes already converted by the datatype (as read from a cache before)
+            v = gen(rng)
+            if rng.random() < 0.3:
+                v = dt(v)
+            back = rng.choice([None, None, gen(rng)])       # the driver answers with a value of its own (plain as well)
             dlog.returns[(m, p)] = (lambda x, b=back: b) if back is not None else None
             del dlog.writes[:]
             res.evaluations += 1
